@@ -247,6 +247,7 @@ func initRHS(s ast.Stmt) ast.Expr {
 // RCommentLines: in applyDecorations the line starts inside a multi-line comment are recorded
 // for every such comment, whichever sink it goes to, before the cursor passes it.
 func (e *Env) RCommentLines() {
+	e.RSearchLoops(e.pkgs(load.PkgDecorator)) // a search loop over the comment text must not stop at a hit at index 0
 	pkg := e.Prog.Pkg(load.PkgDecorator)
 	info := pkg.TypesInfo
 	c := e.Sib.Ctx[load.PkgDecorator]
@@ -259,34 +260,18 @@ func (e *Env) RCommentLines() {
 	// the loop (or helper call) that appends per-'\n' line offsets
 	isLineRecorder := func(n ast.Node) bool {
 		switch x := n.(type) {
-		case *ast.RangeStmt:
-			if b, ok := info.TypeOf(x.X).Underlying().(*types.Basic); ok && b.Info()&types.IsString != 0 {
-				found := false
-				ast.Inspect(x.Body, func(m ast.Node) bool {
-					if as, ok := m.(*ast.AssignStmt); ok && len(as.Lhs) == 1 && e.isRestorerField(info, as.Lhs[0], "lines") {
-						found = true
-					}
-					return true
-				})
-				return found
-			}
+		case *ast.RangeStmt, *ast.ForStmt:
+			return e.isTextLoop(info, x)
 		case *ast.ExprStmt:
 			if call, ok := x.X.(*ast.CallExpr); ok {
 				if fn := c.Callee(call); fn != nil && fn.Pkg() == pkg.Types {
-					// a helper whose body is such a loop
+					// a helper whose body contains such a loop
 					for _, h := range load.AllFuncDecls(pkg) {
 						if info.Defs[h.Name] == types.Object(fn) && h.Body != nil {
 							rec := false
 							ast.Inspect(h.Body, func(m ast.Node) bool {
-								if rs, ok := m.(*ast.RangeStmt); ok {
-									if b, ok := info.TypeOf(rs.X).Underlying().(*types.Basic); ok && b.Info()&types.IsString != 0 {
-										ast.Inspect(rs.Body, func(q ast.Node) bool {
-											if as, ok := q.(*ast.AssignStmt); ok && len(as.Lhs) == 1 && e.isRestorerField(info, as.Lhs[0], "lines") {
-												rec = true
-											}
-											return true
-										})
-									}
+								if loopBody(m) != nil && e.isTextLoop(info, m) {
+									rec = true
 								}
 								return true
 							})
